@@ -550,7 +550,8 @@ def random_scenario(rng, max_files=3, max_refs=8, max_sched=3, p_dep=0.25, p_nev
 
 
 # ------------------------------------------------------------------ the conformance pass shared by C08 and C09
-def conformance(rep, families, attr_mode, devs, nontrivial, n_random, rng, random_kw=None, shards=None):
+def conformance(rep, families, attr_mode, devs, nontrivial, n_random, rng, random_kw=None, shards=None,
+                trace_every=1):
     """(S->I) every scenario TLC enumerates for `families` is loaded with real textX and its outcome compared
     with the module's (Dev = {} -> pass, a listed deviation -> KNOWN-FINDING, else VIOLATION);
     (I->S) the provider calls logged during those loads, and during `n_random` bigger seeded-random
@@ -592,10 +593,12 @@ def conformance(rep, families, attr_mode, devs, nontrivial, n_random, rng, rando
                                      f"{common.canon(expected_outcome(exp[k], attr_mode))}")
                 cnt["passed" if v == "pass" else "known" if v == "known" else "violations"] += 1
         stats[fam] = cnt
-        all_sc += scs
-        all_obs += obs
-        all_imp += ["star"] * len(scs)
-        all_src += src1
+        # the recorded loads handed to trace validation (every `trace_every`-th enumerated scenario)
+        pick = range(0, len(scs), trace_every)
+        all_sc += [scs[i] for i in pick]
+        all_obs += [obs[i] for i in pick]
+        all_imp += ["star"] * len(pick)
+        all_src += [src1[i] for i in pick]
     n_enum = len(all_sc)
     kw = random_kw or {}
     rs_sc = [random_scenario(rng, **kw) for _ in range(n_random)]
